@@ -98,6 +98,13 @@ def run(rep, tier, rng):
             pos, ctx = at + len(defs), "macro-introduced identifier"
         else:
             faulty, pos, kind, ctx = P.inject_fault(rng, g, base)
+        if rng.random() < 0.3:
+            # the failing form's TWIN, character for character, earlier in the text, inside a procedure that is never called: the error
+            # of the later form is reported in the later form (nothing remembered from reading the first one may stand in for it)
+            twin = "(define (never-zz%d) %s 0)" % (i, faulty[pos])
+            at = pos if use is not None else rng.randrange(0, pos + 1)      # a macro use: after the macro's definition
+            faulty = faulty[:at] + [twin] + faulty[at:]
+            pos += 1
         for _ in range(rng.choice([0, 0, 1, 2])):
             at = rng.randrange(0, pos + 1)
             faulty = faulty[:at] + [rng.choice(MULTILINE).replace("%d", str(rng.randrange(1000)))] + faulty[at:]
